@@ -35,7 +35,49 @@ func (ex *Exec) absParamSlice(name string, st *types.Slice) Value {
 	ex.unsupported("slice parameter %s needs a 'lens' directive", name)
 	return nil
 }
-func (ex *Exec) callStd2(full string, fobj *types.Func, args []Value, e *ast.CallExpr) Value {
+func rndByte(j *Term, i int) *Term { return App("rndbyte", SInt, j, IntI(int64(i))) }
+
+// rndBlock(j) = big-endian value of the j-th 32-byte block of the entropy stream.
+func rndBlock(j *Term) *Term {
+	var parts []*Term
+	for i := 0; i < 32; i++ {
+		parts = append(parts, Mul(IntC(pow2(8*(31-i))), rndByte(j, i)))
+	}
+	return Add(parts...)
+}
+
+func (ex *Exec) callStd3(full string, fobj *types.Func, args []Value, e *ast.CallExpr) Value {
+	switch full {
+	case "io.ReadFull":
+		// trusted model of io.ReadFull(crypto/rand.Reader, buf): either an error (nothing is assumed about buf),
+		// or buf is filled with the next len(buf)==32 bytes of the ghost entropy stream.
+		rd, ok := args[0].(OpaqueV)
+		buf := args[1].(SliceV)
+		if !ok || rd.Kind != "rand.Reader" || buf.Len != 32 {
+			ex.unsupported("io.ReadFull is only modelled for (crypto/rand.Reader, 32-byte buffer) at %s", ex.where(e))
+		}
+		fail := Fresh("readfail", SBool)
+		intT := machType(types.Typ[types.Int])
+		if ex.decide(fail, ex.where(e)) {
+			errv := Fresh("readerr", SInt)
+			ex.st.ranges[errv] = bi(1 << 20)
+			ex.st.addFact(Lt(IntI(3000), errv), "read error is non-nil")
+			ex.ghost["rndfail"] = BoolC(true)
+			for i := 0; i < buf.Len; i++ {
+				ex.havocLeaf(buf.Obj, buf.Off+i, buf.Elem, "partial")
+			}
+			return TupleV{ex.freshWord("n", intT), errv}
+		}
+		cur := ex.ghost["rnd"]
+		for i := 0; i < 32; i++ {
+			b := rndByte(cur, i)
+			ex.st.addFact(And(Le(IntI(0), b), Lt(b, IntI(256))), "entropy byte range")
+			buf.Obj.Cells[buf.Off+i] = b
+		}
+		ex.noteWrite(buf.Obj, buf.Off, 32)
+		ex.ghost["rnd"] = Add(cur, IntI(1))
+		return TupleV{ex.constOf(bi(32), intT), IntI(0)}
+	}
 	ex.unsupported("no model for %s at %s", full, ex.where(e))
 	return nil
 }
